@@ -38,7 +38,7 @@ use std::sync::atomic::{AtomicU64, AtomicUsize, Ordering};
 use std::sync::{Arc, Mutex};
 use std::time::{Duration, Instant};
 
-const RULE: &str = "one case = one RSP-QL continuous query (1-3 windows on different streams, each WINDOW block a BGP of 1-3 patterns; optional static patterns + static N-Triples; vocabulary shared between streams and static data, subjects specific to their stream) x window parameters x in-order streams (independent or global clock, random/burst interleaving) x policy (Wait, Steal, Timeout+steal, Timeout+drop; via builder or WITH POLICY) x mode (single-thread; multi-thread under schedule hooks, repeated with different seeded perturbations) x RSTREAM/ISTREAM/DSTREAM. Non-trivial = at least one emitted row had every block restriction checked against the probe contents AND a leak would have been observable (some block has an answer over items that were only sent to another stream, or over the static data, or the static patterns have an answer over stream items); distinct by hash of the whole case.";
+const RULE: &str = "one case = one RSP-QL continuous query (1-3 windows, normally on different streams, now and then two windows on one stream or a window ON ?variable-stream; each WINDOW block a BGP of 1-3 patterns, blocks optionally joined on a shared variable; optional static patterns + static N-Triples; vocabulary shared between streams and static data, subjects specific to their stream) x window parameters x in-order streams (independent or global clock, random/burst interleaving) x policy (Wait, Steal, Timeout+steal, Timeout+drop; via builder or WITH POLICY) x mode (single-thread; multi-thread under schedule hooks, repeated with different seeded perturbations) x RSTREAM/ISTREAM/DSTREAM. Non-trivial = at least one emitted row had every block restriction checked against the probe contents AND a leak would have been observable (some block has an answer over items that were only sent to another stream, or over the static data, or the static patterns have an answer over stream items); distinct by hash of the whole case.";
 
 const RDF_TYPE: &str = "http://www.w3.org/1999/02/22-rdf-syntax-ns#type";
 const LOC: &str = "http://k/loc";
@@ -1499,10 +1499,8 @@ fn run(ctx: &mut Ctx) {
     let mut orders: HashSet<u64> = HashSet::new();
     let reps = ctx.by_tier(2, 4);
     ctx.phase("tiny", ctx.by_tier(1_500, 30_000));
-    while let Some(k) = ctx.next_case() {
-        if !ctx.within(0.35) {
-            break;
-        }
+    while ctx.within(0.35) {
+        let Some(k) = ctx.next_case() else { break };
         do_case(ctx, k, Size::Tiny, reps, &mut shrunk, &mut orders);
     }
     ctx.phase("random", ctx.by_tier(3_000, 200_000));
